@@ -63,7 +63,8 @@ def noise_voltage(freqs: np.ndarray, h_obs: float) -> np.ndarray:
     T_sky = sky_noise(freqs)
     T_comb = T_sys + (T_earth * (1.0 - skyFrac) + T_sky * skyFrac)
 
-    bw = 1e6 * (freqs[1] - freqs[0])  # bandwidth in Hz
+    # bandwidth in Hz; a single-bin band has the fixed 10 MHz bin width
+    bw = 1e6 * (freqs[1] - freqs[0]) if len(freqs) > 1 else 1e7
     Z_load = 50  # 50 ohm load
     k_b = 1.38064852e-23  # boltzmann's constant Watts / Hz / K
 
